@@ -60,7 +60,7 @@ HeapView(heap, heapPtr, freePtr, roots, hi) ==
         ELSE IF \E b \in InUse : Hdr(heap, b) # IntV(FromNat(Refs(b) - 1)) THEN "reference count is not exact"
         ELSE IF hi > F THEN "memory beyond the allocation frontier was written"
         ELSE ""
-  IN [why |-> why, F |-> F, inuse |-> Cardinality(InUse), reach |-> Cardinality(Reach),
+  IN [why |-> why, leak |-> (why = "a block below the allocation frontier is neither reachable nor on a free list (leak)"), F |-> F, inuse |-> Cardinality(InUse), reach |-> Cardinality(Reach),
       nlinear |-> Cardinality(Linear), ndeferred |-> Cardinality(Deferred),
       shared |-> Cardinality({b \in InUse : Hdr(heap, b).t = "int" /\ Hdr(heap, b) # ZeroV})]
 =============================================================================
